@@ -701,7 +701,17 @@ func (x *Exec) checkPost(s *State, res []Val) {
 		if !hasProp(c.Props, x.prop) {
 			continue
 		}
-		x.emit(s, "ensures", c.Label, c.Props, env.evalBool(c.Expr), c)
+		goal := env.evalBool(c.Expr)
+		name := fnName(x.fn) + "/ensures:" + c.Label
+		if kf, ok := x.P.findings[name]; ok && kf.Region != "" {
+			// known finding (DESIGN §4.5): the obligation is proved outside the recorded region,
+			// and the finding is re-confirmed inside it.
+			region := env.evalBool(mustParse(kf.Region))
+			x.emit(s, "ensures", c.Label, c.Props, sOr(region, goal), c)
+			x.emit(s, "finding", c.Label, c.Props, sOr(sNot(region), goal), c)
+			continue
+		}
+		x.emit(s, "ensures", c.Label, c.Props, goal, c)
 	}
 	if x.spec.Implements != "" {
 		x.checkImplements(s, res)
